@@ -7,6 +7,8 @@ import (
 	"bytes"
 	"compress/gzip"
 	"fmt"
+	"io"
+	"sync"
 	"math/rand"
 	"os"
 	"runtime"
@@ -34,24 +36,56 @@ func c13TmpDir() string {
 	return d
 }
 
-func c13TempFile(content []byte, gz bool) (string, error) {
+// c13TempFile writes content to a temp file: gz 0 = as is, 1 = one gzip member, 2 = a gzip stream of two
+// members (the content cut in the middle — `cat a.gz b.gz`, the shape of bgzip'd and concatenated files)
+func c13TempFile(content []byte, gz int) (string, error) {
 	f, err := os.CreateTemp(c13TmpDir(), "c13-*")
 	if err != nil {
 		return "", err
 	}
 	defer f.Close()
-	if gz {
-		w := gzip.NewWriter(f)
-		if _, err := w.Write(content); err != nil {
-			return f.Name(), err
+	if gz > 0 {
+		parts := [][]byte{content}
+		if gz == 2 {
+			parts = [][]byte{content[:len(content)/2], content[len(content)/2:]}
 		}
-		if err := w.Close(); err != nil {
-			return f.Name(), err
+		for _, part := range parts {
+			w := gzip.NewWriter(f)
+			if _, err := w.Write(part); err != nil {
+				return f.Name(), err
+			}
+			if err := w.Close(); err != nil {
+				return f.Name(), err
+			}
 		}
 		return f.Name(), nil
 	}
 	_, err = f.Write(content)
 	return f.Name(), err
+}
+
+// c13OtherText: a second input for the "hold the result across another call" steps: 3 records, one line
+// beyond 64 KiB, letters that do not occur in generated sequences' first positions
+var c13OtherText = ">other one\n" + strings.Repeat("XYZXYZXYZW", 7000) + "\n>other two\nXXXXXXXXXXXXXXXXXXXXXXXX\nYYYY\n>o3\n\n"
+
+// c13OtherList derives a different list of the same shape and size (names and sequences of the same
+// lengths, every letter replaced), so that a recycled buffer of Build would be overwritten in place
+func c13OtherList(fs []fasta.Fasta) []fasta.Fasta {
+	out := make([]fasta.Fasta, 0, len(fs)+1)
+	for _, f := range fs {
+		out = append(out, fasta.Fasta{Name: strings.Repeat("#", len(f.Name)), Sequence: strings.Repeat("X", len(f.Sequence))})
+	}
+	return append(out, fasta.Fasta{Name: "extra", Sequence: "XXXX"})
+}
+
+func c13GzKind(mode string) int {
+	switch mode {
+	case "gz":
+		return 1
+	case "gz2":
+		return 2
+	}
+	return 0
 }
 
 func c13Recs(fs []fasta.Fasta) []string {
@@ -66,16 +100,20 @@ func c13Recs(fs []fasta.Fasta) []string {
 func c13ReadVia(mode string, text []byte) ([]fasta.Fasta, error) {
 	switch mode {
 	case "plain":
-		return fasta.Parse(bytes.NewReader(text)), nil
-	case "file", "gz":
-		path, err := c13TempFile(text, mode == "gz")
+		// the result is held while the parser is used again on another, larger text (a result that
+		// aliases a reused buffer would change under our feet), and reported afterwards
+		got := fasta.Parse(bytes.NewReader(text))
+		_ = fasta.Parse(strings.NewReader(c13OtherText))
+		return got, nil
+	case "file", "gz", "gz2":
+		path, err := c13TempFile(text, c13GzKind(mode))
 		if path != "" {
 			defer os.Remove(path)
 		}
 		if err != nil {
 			return nil, err
 		}
-		if mode == "gz" {
+		if mode != "file" {
 			return fasta.ReadGz(path), nil
 		}
 		return fasta.Read(path), nil
@@ -110,7 +148,7 @@ func c13Input(args []string) ([]fasta.Fasta, error) {
 	return fs, nil
 }
 
-// c13.build mode n name seq ... -> text n' name seq ...
+// c13.build mode n name seq ... -> text stable n' name seq ...
 // plain: Parse(Build(rs)); file: Write(rs,path) then Read(path); gz: Write, gzip the file with Go's writer, ReadGz
 func c13Build(args []string) ([]string, error) {
 	if len(args) < 2 {
@@ -120,12 +158,39 @@ func c13Build(args []string) ([]string, error) {
 	if err != nil {
 		return nil, err
 	}
+	// HISTORY: build the text, KEEP the returned bytes (no copy), then call Build again on other lists —
+	// sequentially and from two goroutines — and only then look at the kept bytes.
 	text := fasta.Build(fs)
+	snapshot := string(text) // an independent copy taken at once, for the comparison below only
+	other := c13OtherList(fs)
+	_ = fasta.Build(other)
+	var wg sync.WaitGroup
+	held := make([][]byte, 4)
+	for g := 0; g < 2; g++ {
+		wg.Add(1)
+		go func(g int) {
+			defer wg.Done()
+			held[2*g] = fasta.Build(fs)
+			_ = fasta.Build(other)
+			held[2*g+1] = fasta.Build(fs)
+		}(g)
+	}
+	wg.Wait()
+	_ = fasta.Build(other)
+	stable := "1"
+	if string(text) != snapshot {
+		stable = "0"
+	}
+	for _, h := range held {
+		if string(h) != snapshot {
+			stable = "0"
+		}
+	}
 	var got []fasta.Fasta
 	switch args[0] {
 	case "plain":
 		got = fasta.Parse(bytes.NewReader(text))
-	case "file", "gz":
+	case "file", "gz", "gz2":
 		f, err := os.CreateTemp(c13TmpDir(), "c13w-*")
 		if err != nil {
 			return nil, err
@@ -144,7 +209,7 @@ func c13Build(args []string) ([]string, error) {
 		if args[0] == "file" {
 			got = fasta.Read(path)
 		} else {
-			gzPath, err := c13TempFile(written, true)
+			gzPath, err := c13TempFile(written, c13GzKind(args[0]))
 			if gzPath != "" {
 				defer os.Remove(gzPath)
 			}
@@ -156,10 +221,10 @@ func c13Build(args []string) ([]string, error) {
 	default:
 		return nil, fmt.Errorf("bad mode %q", args[0])
 	}
-	return append([]string{string(text)}, c13Recs(got)...), nil
+	return append([]string{string(text), stable}, c13Recs(got)...), nil
 }
 
-// c13.stream src cap seed stallPermille text -> closedOnce n name seq ...
+// c13.stream src cap seed stallPermille text -> closedOnce n name seq ...   (src: mem | file | gz | gz2)
 // src mem: ParseConcurrent on a reader in a goroutine of ours (a panic of the producer — send on or close of
 // a closed channel — is caught and reported); file / gz: ReadConcurrent / ReadGzConcurrent on a temp file.
 // The consumer receives with `v, ok := <-ch`, stalling at random (yield, sleep, spin) before receives; after
@@ -183,15 +248,44 @@ func c13Stream(args []string) ([]string, error) {
 			defer func() { done <- recover() }()
 			fasta.ParseConcurrent(strings.NewReader(text), ch)
 		}()
-	case "file", "gz":
-		path, err := c13TempFile([]byte(text), args[0] == "gz")
+	case "pipe":
+		// a slow reader: the text arrives in small pieces with pauses, so that parsing overlaps consumption
+		// (records are finished while the consumer is stalled, and slots are freed while the parser reads on)
+		pr, pw := io.Pipe()
+		feed := rand.New(rand.NewSource(seed ^ 0x5eed))
+		go func() {
+			data := []byte(text)
+			for len(data) > 0 {
+				n := 1 + feed.Intn(48)
+				if n > len(data) {
+					n = len(data)
+				}
+				if _, err := pw.Write(data[:n]); err != nil {
+					return
+				}
+				data = data[n:]
+				switch feed.Intn(4) {
+				case 0:
+					runtime.Gosched()
+				case 1:
+					time.Sleep(time.Duration(1+feed.Intn(150)) * time.Microsecond)
+				}
+			}
+			pw.Close()
+		}()
+		go func() {
+			defer func() { done <- recover() }()
+			fasta.ParseConcurrent(pr, ch)
+		}()
+	case "file", "gz", "gz2":
+		path, err := c13TempFile([]byte(text), c13GzKind(args[0]))
 		if path != "" {
 			defer os.Remove(path)
 		}
 		if err != nil {
 			return nil, err
 		}
-		if args[0] == "gz" {
+		if args[0] != "file" {
 			fasta.ReadGzConcurrent(path, ch)
 		} else {
 			fasta.ReadConcurrent(path, ch)
@@ -201,7 +295,19 @@ func c13Stream(args []string) ([]string, error) {
 		return nil, fmt.Errorf("bad src %q", args[0])
 	}
 	rng := rand.New(rand.NewSource(seed))
+	// stall > 1000: additionally ONE long stall of (stall - 1000) ms before the second receive — a slow
+	// consumer (a producer that gives up on a send after a timeout would lose a record here)
+	longStall := 0
+	if stall > 1000 {
+		longStall = stall - 1000
+		stall = 300
+	}
+	receives := 0
 	pause := func() {
+		receives++
+		if receives == 2 && longStall > 0 {
+			time.Sleep(time.Duration(longStall) * time.Millisecond)
+		}
 		if rng.Intn(1000) >= stall {
 			return
 		}
